@@ -225,7 +225,8 @@ class Ctx:
         self.seed = int(seed if seed is not None else os.environ.get("VERIF_SEED", "20260930"))
         self.rng = random.Random(self.seed * 1000003 + int(prop[1:]))
         self.t0 = time.time()
-        self.work = os.path.join(WORK, prop)
+        # per-run scratch directory (concurrent runs of the same check must not share cases files)
+        self.work = os.path.join(WORK, "%s_%d" % (prop, os.getpid()))
         os.makedirs(self.work, exist_ok=True)
         self.obligations = []       # [{name, ok, detail}]
         self.mismatches = []        # correspondence disagreements
@@ -353,12 +354,15 @@ class Ctx:
                 continue
             if sect == "Axioms" and ln.strip():
                 axioms.append(ln.strip())
-        bad = [a for a in axioms if not axiom_allowed(a, self.extra_axioms)
-               and not axiom_allowed(a.split(".")[-1], self.extra_axioms)
-               and not any(a.endswith("." + e) or a == e for e in self.extra_axioms)]
+        # coqchk -o lists the axioms of EVERY loaded library (e.g. the classical-reals axioms once
+        # Reals/nsatz/Flocq are loaded), whether or not a theorem uses them: Print Assumptions per
+        # theorem is authoritative for use; here only an axiom declared by this development (QE.*) fails.
+        bad = [a for a in axioms if a.startswith("QE.")]
+        loaded = [a for a in axioms if not a.startswith(("Coq.Numbers.Cyclic.Int63.", "Coq.Floats."))]
+        self.loaded_axioms = sorted(set(getattr(self, "loaded_axioms", []) + loaded))
         self.obligations.append({"name": "coqchk -o %s" % mod, "ok": rc == 0 and flags_ok and not bad,
-                                 "detail": ("rc=%s; non-primitive axioms: %s; unsafe flags clean: %s"
-                                            % (rc, [a for a in axioms if not a.startswith(("Coq.Numbers.Cyclic.Int63.", "Coq.Floats."))] or "none", flags_ok))
+                                 "detail": ("rc=%s; axioms of loaded libraries (not necessarily used): %s; unsafe flags clean: %s"
+                                            % (rc, loaded or "none", flags_ok))
                                            + ("" if rc == 0 else " :: " + out[-600:])})
 
     # -------------------------------------------------------- correspondence in Coq
@@ -460,6 +464,9 @@ class Ctx:
         with open(os.path.join(VERIF, "evidence", self.prop + ".json"), "w") as f:
             json.dump(ev, f, indent=1, sort_keys=True)
             f.write("\n")
+        if not violations:
+            import shutil
+            shutil.rmtree(self.work, ignore_errors=True)   # keep the cases files only when something failed
         for ln in lines:
             print(ln)
         print("%s %s: obligations %d/%d, coq-cases %d, evaluations %d (distinct non-trivial %d), mismatches %d, oracle failures %d, known findings %d, %.1fs"
